@@ -1,0 +1,98 @@
+//go:build verif
+
+package dhcpv6
+
+import (
+	"net"
+	"time"
+)
+
+// Verification hooks (built only with -tags verif).  They expose the unexported
+// message handler, let a harness install the UDP socket replies are written to,
+// and give read-only snapshots of the lease table and of the legacy pools.
+
+// HandleMessageForVerif runs the message dispatcher exactly as receiveLoop would.
+func (s *Server) HandleMessageForVerif(msg *Message, addr *net.UDPAddr) {
+	s.handleMessage(msg, addr)
+}
+
+// SetConnForVerif installs the socket used by sendResponse.
+func (s *Server) SetConnForVerif(conn *net.UDPConn) {
+	s.conn = conn
+}
+
+// ServerDUIDForVerif returns the serialized server DUID.
+func (s *Server) ServerDUIDForVerif() []byte {
+	return s.serverDUID.Serialize()
+}
+
+// LeaseForVerif is a read-only copy of a Lease.
+type LeaseForVerif struct {
+	ClientDUID []byte
+	IAID       uint32
+	Address    net.IP
+	Prefix     *net.IPNet
+	ValidEnd   time.Time
+}
+
+func copyNetForVerif(n *net.IPNet) *net.IPNet {
+	if n == nil {
+		return nil
+	}
+	return &net.IPNet{IP: append(net.IP(nil), n.IP...), Mask: append(net.IPMask(nil), n.Mask...)}
+}
+
+// LeasesForVerif returns copies of all leases (unordered: callers sort).
+func (s *Server) LeasesForVerif() []LeaseForVerif {
+	s.leasesMu.RLock()
+	defer s.leasesMu.RUnlock()
+	out := make([]LeaseForVerif, 0, len(s.leases))
+	for k, l := range s.leases {
+		var a net.IP
+		if l.Address != nil {
+			a = append(net.IP(nil), l.Address...)
+		}
+		out = append(out, LeaseForVerif{
+			ClientDUID: []byte(k),
+			IAID:       l.IAID,
+			Address:    a,
+			Prefix:     copyNetForVerif(l.Prefix),
+			ValidEnd:   l.ValidEnd,
+		})
+	}
+	return out
+}
+
+// PoolStateForVerif is a copy of the legacy address and prefix pools' state.
+type PoolStateForVerif struct {
+	AddrAllocated   map[string]net.IP // DUID string -> address
+	AddrAvailable   []net.IP          // free list, in order
+	PrefixAllocated map[string]*net.IPNet
+	PrefixAvailable []*net.IPNet
+}
+
+// PoolStateForVerif snapshots the legacy pools (nil pools give empty fields).
+func (s *Server) PoolStateForVerif() PoolStateForVerif {
+	st := PoolStateForVerif{AddrAllocated: map[string]net.IP{}, PrefixAllocated: map[string]*net.IPNet{}}
+	if p := s.addressPool; p != nil {
+		p.mu.Lock()
+		for k, v := range p.allocated {
+			st.AddrAllocated[k] = append(net.IP(nil), v...)
+		}
+		for _, v := range p.available {
+			st.AddrAvailable = append(st.AddrAvailable, append(net.IP(nil), v...))
+		}
+		p.mu.Unlock()
+	}
+	if p := s.prefixPool; p != nil {
+		p.mu.Lock()
+		for k, v := range p.allocated {
+			st.PrefixAllocated[k] = copyNetForVerif(v)
+		}
+		for _, v := range p.available {
+			st.PrefixAvailable = append(st.PrefixAvailable, copyNetForVerif(v))
+		}
+		p.mu.Unlock()
+	}
+	return st
+}
